@@ -74,6 +74,25 @@ type Exec struct {
 	Aborted   string
 	// PointHook lets the harness observe points (op, key) of thread id.
 	KeepTrace bool
+	// names of anonymous synchronisation objects (shimmed mutexes, atomics),
+	// assigned in order of first use so that they are the same in every replay
+	names map[any]string
+}
+
+// NameOf returns a stable name for an anonymous synchronisation object (a
+// pointer): "o1", "o2", ... in order of first use within this execution.
+func (x *Exec) NameOf(p any) string {
+	x.mu.Lock()
+	defer x.mu.Unlock()
+	if x.names == nil {
+		x.names = map[any]string{}
+	}
+	n, ok := x.names[p]
+	if !ok {
+		n = "o" + strconv.Itoa(len(x.names)+1)
+		x.names[p] = n
+	}
+	return n
 }
 
 var (
@@ -228,6 +247,17 @@ func (x *Exec) LockOp(op, key string) {
 		ls := x.lock(key)
 		if ls.writer == -1 && len(ls.readers) == 0 {
 			ls.writer = t.ID
+			x.noteAcquire(t, key)
+		}
+		x.mu.Unlock()
+		return
+	case "tryrlock":
+		// Go's TryRLock fails while a writer holds the lock or waits for it
+		x.Yield(op, key)
+		x.mu.Lock()
+		ls := x.lock(key)
+		if ls.writer == -1 && len(ls.waitW) == 0 {
+			ls.readers = append(ls.readers, t.ID)
 			x.noteAcquire(t, key)
 		}
 		x.mu.Unlock()
